@@ -227,6 +227,15 @@ impl<K: Eq + Hash, V, S> DashMap<K, V, S> {
         else { vs::release_exclusive(self.lk()); try_result::TryResult::Absent }
     }
 
+    /// entry API (subset): the returned entry holds the shard's write lock
+    pub fn entry(&self, key: K) -> mapref::entry::Entry<'_, K, V, S> {
+        vs::schedule_point(vs::S_MAP_OP);
+        vs::acquire_exclusive(self.lk());
+        let idx = self.find(&key);
+        if idx < CAP { core::mem::forget(key); mapref::entry::Entry::Occupied(mapref::entry::OccupiedEntry { map: self, idx }) }
+        else { mapref::entry::Entry::Vacant(mapref::entry::VacantEntry { map: self, key }) }
+    }
+
     pub fn clear(&self) {
         vs::schedule_point(vs::S_MAP_OP);
         vs::acquire_exclusive(self.lk());
@@ -258,6 +267,38 @@ pub mod try_result {
 }
 
 pub mod mapref {
+    pub mod entry {
+        use super::super::*;
+        use super::one::RefMut;
+        pub enum Entry<'a, K, V, S = RandomState> { Occupied(OccupiedEntry<'a, K, V, S>), Vacant(VacantEntry<'a, K, V, S>) }
+        pub struct OccupiedEntry<'a, K, V, S = RandomState> { pub(crate) map: &'a DashMap<K, V, S>, pub(crate) idx: usize }
+        pub struct VacantEntry<'a, K, V, S = RandomState> { pub(crate) map: &'a DashMap<K, V, S>, pub(crate) key: K }
+        impl<'a, K: Eq + Hash, V, S> VacantEntry<'a, K, V, S> {
+            pub fn insert(self, value: V) -> RefMut<'a, K, V, S> {
+                let f = self.map.free_slot();
+                if f >= CAP { vs::out_of_bound(); }
+                let f = if f >= CAP { 0 } else { f };
+                self.map.used()[f] = 1;
+                self.map.keys()[f] = MaybeUninit::new(self.key);
+                self.map.vals()[f] = MaybeUninit::new(value);
+                RefMut { map: self.map, idx: f }
+            }
+        }
+        impl<'a, K: Eq + Hash, V, S> OccupiedEntry<'a, K, V, S> {
+            pub fn into_ref(self) -> RefMut<'a, K, V, S> { RefMut { map: self.map, idx: self.idx } }
+            pub fn get(&self) -> &V { unsafe { (*self.map.vals)[self.idx].assume_init_ref() } }
+            pub fn insert(&mut self, value: V) -> V { core::mem::replace(unsafe { (*self.map.vals)[self.idx].assume_init_mut() }, value) }
+        }
+        impl<'a, K: Eq + Hash, V, S> Entry<'a, K, V, S> {
+            pub fn or_insert(self, value: V) -> RefMut<'a, K, V, S> { match self { Entry::Occupied(o) => o.into_ref(), Entry::Vacant(v) => v.insert(value) } }
+            pub fn or_insert_with(self, f: impl FnOnce() -> V) -> RefMut<'a, K, V, S> { match self { Entry::Occupied(o) => o.into_ref(), Entry::Vacant(v) => v.insert(f()) } }
+            pub fn or_default(self) -> RefMut<'a, K, V, S> where V: Default { self.or_insert_with(V::default) }
+            pub fn and_modify(self, f: impl FnOnce(&mut V)) -> Self {
+                if let Entry::Occupied(o) = &self { f(unsafe { (*o.map.vals)[o.idx].assume_init_mut() }); }
+                self
+            }
+        }
+    }
     pub mod one {
         use super::super::*;
         pub struct Ref<'a, K, V, S = RandomState> { pub(crate) map: &'a DashMap<K, V, S>, pub(crate) idx: usize }
@@ -268,7 +309,7 @@ pub mod mapref {
         }
         impl<'a, K: Eq + Hash, V, S> Deref for Ref<'a, K, V, S> { type Target = V; fn deref(&self) -> &V { self.value() } }
         impl<'a, K, V, S> Drop for Ref<'a, K, V, S> {
-            fn drop(&mut self) { vs::release_shared(unsafe { &mut *self.map.lockp }); }
+            fn drop(&mut self) { vs::schedule_point(vs::S_LOCK_REL); vs::release_shared(unsafe { &mut *self.map.lockp }); }
         }
         pub struct RefMut<'a, K, V, S = RandomState> { pub(crate) map: &'a DashMap<K, V, S>, pub(crate) idx: usize }
         impl<'a, K: Eq + Hash, V, S> RefMut<'a, K, V, S> {
@@ -280,7 +321,7 @@ pub mod mapref {
         impl<'a, K: Eq + Hash, V, S> Deref for RefMut<'a, K, V, S> { type Target = V; fn deref(&self) -> &V { self.value() } }
         impl<'a, K: Eq + Hash, V, S> DerefMut for RefMut<'a, K, V, S> { fn deref_mut(&mut self) -> &mut V { self.value_mut() } }
         impl<'a, K, V, S> Drop for RefMut<'a, K, V, S> {
-            fn drop(&mut self) { vs::release_exclusive(unsafe { &mut *self.map.lockp }); }
+            fn drop(&mut self) { vs::schedule_point(vs::S_LOCK_REL); vs::release_exclusive(unsafe { &mut *self.map.lockp }); }
         }
     }
     pub mod multiple {
